@@ -3,6 +3,8 @@
 P="$1"; PATCH="$(readlink -f "$2")"; TIER="${3:-quick}"
 git -C /repo diff --quiet || { echo "/repo is dirty"; exit 2; }
 git -C /repo apply "$PATCH" || { echo "patch does not apply"; exit 2; }
-cd /verif && ./check "$P" --tier "$TIER" > /tmp/try_seed.out 2>&1; rc=$?
+cd /verif && cp -f evidence/$P.json /tmp/try_seed.evidence.$P 2>/dev/null
+./check "$P" --tier "$TIER" > /tmp/try_seed.out 2>&1; rc=$?
+cp -f /tmp/try_seed.evidence.$P evidence/$P.json 2>/dev/null   # the committed evidence must come from the unchanged tree
 git -C /repo checkout -- . && git -C /repo clean -fdq -- src examples tests 2>/dev/null
 echo "exit=$rc"; grep -E "VIOLATION|KNOWN|obligations" /tmp/try_seed.out
